@@ -41,6 +41,9 @@ pub struct ItemSpec {
     pub keep_derives: Vec<String>,
     #[serde(default)]
     pub skip_rules: Vec<String>,
+    /// N6 side condition: the body starts with `let mut guard = self.0.lock().await;` and has no other `.await`
+    #[serde(default)]
+    pub lock_scope: bool,
     /// N15: `?` on Result written out as its match
     #[serde(default)]
     pub desugar_try: bool,
@@ -76,6 +79,9 @@ pub struct UnitSpec {
     pub global_subst: Vec<(String, String, String)>,
     #[serde(default)]
     pub keep_derives: Vec<String>,
+    /// proof-only text (e.g. `broadcast use ..;`) placed at the start of every extracted function body
+    #[serde(default)]
+    pub proof_prologue: String,
 }
 
 pub struct Lost(pub String);
@@ -419,7 +425,7 @@ fn main() {
         );
         out.push_str(&prefix);
         let base_line = cur_line(&out);
-        let spliced = match rules::splice(&normalized, spec, &id, cl, false, base_line) {
+        let spliced = match rules::splice(&normalized, spec, &id, cl, false, base_line, &unit.proof_prologue) {
             Ok(s) => s,
             Err(Lost(m)) => die(&format!("{id}: {m}")),
         };
@@ -432,7 +438,7 @@ fn main() {
         }
         if canary && cl.is_some() && spliced.is_fn {
             let base_line = cur_line(&out);
-            let tw = match rules::splice(&normalized, spec, &id, cl, true, base_line) {
+            let tw = match rules::splice(&normalized, spec, &id, cl, true, base_line, &unit.proof_prologue) {
                 Ok(s) => s,
                 Err(Lost(m)) => die(&format!("{id}: {m}")),
             };
